@@ -58,7 +58,7 @@ func TestInstancesParse(t *testing.T) {
 			bad++
 			t.Errorf("seed %d schema %s: %v\n%s\n--- patch\n%s", seed, c.Schema, err, s, c.PatchText())
 		}
-		if _, err := c.RefPattern(); err != nil {
+		if _, err := c.RefPattern(); err != nil && !strings.Contains(err.Error(), "not positionally paired") {
 			bad++
 			t.Errorf("seed %d schema %s: refpattern: %v\n%s", seed, c.Schema, err, c.PatchText())
 		}
